@@ -104,6 +104,10 @@ func callSite() string {
 // Kill is the panic value that unwinds the program after an injected kill.
 type Kill struct{ AtOp int }
 
+// Blocked is the panic value that unwinds the program when it enters a read
+// that can never return (standard input that is neither closed nor written to).
+type Blocked struct{ AtOp int }
+
 // Exit is the panic value that unwinds the program on os.Exit.
 type Exit struct{ Code int }
 
@@ -121,6 +125,7 @@ type World struct {
 	Log      []Op
 	Frozen   bool // killed: nothing has effect any more
 	Killed   bool
+	Blocked  bool // stuck in a read of standard input that never returns
 	ExitCode int
 	Exited   bool
 
@@ -923,6 +928,14 @@ func (h *Handle) Read(b []byte) (n int, eof bool, errno syscall.Errno) {
 		return 0, false, 0
 	}
 	if want == 0 {
+		if h.stream == 1 && w.Spec.Knobs.StdinBlocks {
+			// a terminal (or a pipe whose writer never closes it): the read would
+			// never return. The program is stuck here for good.
+			op.Err = "BLOCKED"
+			w.Frozen = true
+			w.Blocked = true
+			panic(Blocked{AtOp: op.Seq})
+		}
 		return 0, true, 0
 	}
 	copy(b, src[pos:pos+want])
